@@ -519,8 +519,13 @@ pub unsafe extern "C" fn getenv(name: *const libc::c_char) -> *mut libc::c_char 
         if let Ok(mut p) = p.try_borrow_mut() {
             if let Some(list) = p.as_mut() {
                 let text = String::from_utf8_lossy(wanted).into_owned();
-                // (the harness's own switches are read through the same function)
-                if !text.starts_with("VERIF_") && list.len() < 32 && !list.contains(&text) {
+                // The harness's own switches are read through the same function, and so are the
+                // standard library's: RUST_MIN_STACK (read when a thread is spawned; "1" would
+                // give every helper thread of the code under test a minimal stack),
+                // RUST_BACKTRACE and RUST_LIB_BACKTRACE (read when a panic is reported). What they
+                // do is std's behaviour, not the generator's.
+                let std_internal = matches!(text.as_str(), "RUST_MIN_STACK" | "RUST_BACKTRACE" | "RUST_LIB_BACKTRACE");
+                if !text.starts_with("VERIF_") && !std_internal && list.len() < 32 && !list.contains(&text) {
                     list.push(text);
                 }
             }
